@@ -28,8 +28,10 @@ def tree_cases(rng, maxlen, count):
         ops = []
         nctx, nmap = 1, 0
         for _ in range(1 + rng.below(maxlen)):
-            r = rng.below(8)
-            if r <= 1 or nmap == 0:
+            r = rng.below(9)
+            if r == 8:
+                ops.append("der:%d:%s" % (rng.below(nctx), rng.choice("vctf"))); nctx += 1
+            elif r <= 1 or nmap == 0:
                 ops.append("new:" + T(small_map(rng))); nmap += 1
             elif r <= 4:
                 ops.append("add:%d:%d" % (rng.below(nctx), rng.below(nmap))); nctx += 1
@@ -64,6 +66,8 @@ def exhaustive_trees(maxlen):
             cands.append(("mut:%d:%s:%s" % (m, b"a".hex(), T(7)), nctx, nmap))
         for c in range(1, nctx):
             cands.append(("read:%d" % c, nctx, nmap + 1))
+        if nctx >= 2 and depth <= 3:
+            cands.append(("der:%d:f" % (nctx - 1), nctx + 1, nmap))
         for op, nc, nm in cands:
             seq = prefix + [op]
             out.append(seq)
@@ -92,6 +96,8 @@ def e2e(rng, ident):
     tagspec = (T(ctx_tags) if ctx_tags is not None else "-")
     if vals:
         tagspec += "~" + "+".join("%s:%s" % (ck.hex(), T(v)) for ck, v in vals.items())
+    if rng.chance(1, 4):
+        tagspec += ("~" if not vals else "") + "~fn"      # the context is also marked fire-now, after the tags were attached
     timeout = rng.choice([0, 0, 30000])
     ct = 0 if kind != "callc" else rng.choice([1, 2, 3, 77])
     if kind == "notify":
